@@ -29,6 +29,7 @@ from pynguin.utils.naming import get_module_alias
 from pynguin.utils.type_utils import (
     is_assertable,
     is_collection_type,
+    is_enum,
     is_ignorable_type,
     is_primitive_type,
 )
@@ -330,7 +331,7 @@ class RemoteAssertionTraceObserver(ex.RemoteExecutionObserver):
         if isinstance(value, float):
             trace.add_entry(position, ass.FloatAssertion(source, value))
             return
-        if is_assertable(value):
+        if is_assertable(value) and self._are_enums_importable(value):
             trace.add_entry(position, ass.ObjectAssertion(source, copy.deepcopy(value)))
             return
 
@@ -397,6 +398,35 @@ class RemoteAssertionTraceObserver(ex.RemoteExecutionObserver):
                     depth=depth + 1,
                     max_depth=max_depth,
                 )
+
+    @classmethod
+    def _are_enums_importable(cls, value: Any) -> bool:
+        """Check whether all enum members of an assertable value can be rendered.
+
+        An enum member is rendered as ``EnumClass.MEMBER``, so its class must be
+        available in the generated test file: either under its bare name, because
+        it is one of the public names imported from the SUT module, or, for a
+        nested or underscore-prefixed class of the SUT module, through the module
+        alias. Members of other enum classes cannot be referenced; the caller then
+        falls back to an assertion on the type.
+
+        Args:
+            value: An assertable value, i.e., a primitive, an enum member, or a
+                collection of assertable values.
+
+        Returns:
+            True, if an ``ObjectAssertion`` on the value can safely be rendered.
+        """
+        typ = type(value)
+        if is_enum(typ):
+            module = sys.modules.get(config.configuration.module_name)
+            if not typ.__name__.startswith("_") and getattr(module, typ.__qualname__, None) is typ:
+                return True
+            return cls._is_type_importable(typ)
+        if is_collection_type(typ):
+            elements = [*value, *value.values()] if isinstance(value, dict) else value
+            return all(cls._are_enums_importable(element) for element in elements)
+        return True
 
     @staticmethod
     def _is_type_importable(typ: type) -> bool:
